@@ -37,6 +37,10 @@ CLAIMED["C18"] = dict(level="exploration", ref="DESIGN.md section 4 C18",
    text="Seeded 4-D datasets (non-square scan and detector, positive asymmetric patterns) and a history of calls on ONE origin-model instance: calculate_origin / fit_origin_background / shift_origin_to under every batch size the public knob can produce, injected MemoryError after j batches followed by a retry with a smaller batch (the failed call must not change published state), planted plane/constant origins, planted integer origins (shift must equal np.roll), plus the dataset model's vectorised and looped paths and ptycho_utils.fit_origin; all compared with a float64 NumPy reference. The schedule dimension is the batch partition and the fault/retry history; the analytic oracles ride along.",
    note="Trusts the float64 reference and the calibrated float32 tolerances (HEAD deviates <= 5e-7). Thin as a simulation target (DESIGN section 2 says so): most deciding power is seeded generation over batch partitions, call histories and allocation faults.",
    technique="deterministic schedule simulation: batch-size knob, armed allocation failure + retry on a reused instance, float64 reference oracle")
+CLAIMED["C04"] = dict(level="exploration", ref="DESIGN.md section 4 C04",
+   text="Seeded direct-ptychography problems and ONE instance reused for a history of reconstruct calls (all five kernels and their aliases, upsampling 1-3, filters, sub-masks) under every batch size the public knob can produce, with MemoryError injected after j batches of pass 1 or pass 2 followed by a retry with a smaller batch (failed calls must leave the published stack untouched); every call is compared with a fresh instance run full-batch. Linearity in the stack, recombination of complementary sub-masks with aperture weights and the two analytic parallax limits (NumPy reference) ride along on the same instances and are labelled as pure-input oracles.",
+   note="Trusts the fresh full-batch run of the real code as reference for clause 1 and ~20 lines of NumPy for the analytic clauses; float32 tolerances calibrated on HEAD (<= 2e-7 observed, 2e-5 demanded). Thin as a simulation target (DESIGN section 2): the schedule is the batch partition, the history is instance reuse, the fault is an allocation failure mid-stream.",
+   technique="deterministic schedule simulation: batch-size knob, armed allocation failure in pass 1/2 + retry on a reused instance, fresh-instance full-batch reference, analytic NumPy oracles")
 NA = {
  "C02": "single evaluation of a deterministic forward model at a known ground truth; no schedule, state, fault or persistence in the claim - a simulator would only be an input generator",
  "C06": "conservation laws of bin/fourier_resample/pad/crop as pure array->array maps (the operation-history aspect of the same methods is claimed under C03)",
@@ -49,7 +53,7 @@ NA = {
  "C17": "unwrapping is a deterministic function of field and mask; its merge order is fixed by the input, not by a scheduler",
  "C20": "range/monotonicity/inverse identities of stateless maps",
 }
-PENDING = {k: "claimed in DESIGN.md (section 4); its check is still under construction in this build session and therefore not yet registered" for k in ["C04","C05"]}
+PENDING = {k: "claimed in DESIGN.md (section 4); its check is still under construction in this build session and therefore not yet registered" for k in ["C05"]}
 
 def main():
     checks = []
